@@ -45,30 +45,65 @@ def name_uses(chk, repo):
                 tainted.add(n.targets[0].elts[0].id)
     if not tainted:
         raise AnalysisError('C20.R1', 'PlayerThread._connect', 'cannot find the team name taken from parse_connection_info')
-    changed = True
-    while changed:
-        changed = False
-        for n in ast.walk(fn):
-            if isinstance(n, ast.Assign) and len(n.targets) == 1 and isinstance(n.targets[0], ast.Name) and n.targets[0].id not in tainted:
-                v = n.value
-                if (isinstance(v, ast.Name) and v.id in tainted) or (isinstance(v, ast.Subscript) and ast.unparse(v.value) == 'self.team_names'):
-                    tainted.add(n.targets[0].id)
-                    changed = True
-    bad = None
-    for n in ast.walk(fn):
-        is_name = (isinstance(n, ast.Name) and n.id in tainted and isinstance(n.ctx, ast.Load)) or \
-            (isinstance(n, ast.Subscript) and isinstance(n.ctx, ast.Load) and ast.unparse(n.value) == 'self.team_names')
-        if not is_name:
+    work = [(fn, set(tainted))]
+    seen_fns = set()
+    all_tainted = set(tainted)
+    n_fns = 0
+    while work:
+        g, tset = work.pop()
+        key = (id(g), tuple(sorted(tset)))
+        if key in seen_fns:
             continue
-        par = parent(n)
-        if isinstance(par, ast.Compare) and all(isinstance(o, (ast.Eq, ast.NotEq, ast.Is, ast.IsNot)) for o in par.ops):
-            continue
-        if isinstance(par, ast.FormattedValue) or (isinstance(par, ast.Assign) and par.value is n):
-            continue
-        bad = bad or (par, n)
-    if bad:
-        raise AnalysisError('C20.R1', 'PlayerThread._connect', f'team name `{ast.unparse(bad[1])}` is used in `{ast.unparse(bad[0])[:70]}` (not an ==/!=/None test, an f-string '
-                                                               f'hole or a plain store): six representative names do not cover every behaviour')
+        seen_fns.add(key)
+        n_fns += 1
+        changed = True
+        while changed:
+            changed = False
+            for n in ast.walk(g):
+                if isinstance(n, ast.Assign) and len(n.targets) == 1 and isinstance(n.targets[0], ast.Name) and n.targets[0].id not in tset:
+                    v = n.value
+                    if (isinstance(v, ast.Name) and v.id in tset) or (isinstance(v, ast.Subscript) and ast.unparse(v.value) == 'self.team_names'):
+                        tset.add(n.targets[0].id)
+                        changed = True
+        all_tainted |= tset
+        bad = None
+        for n in ast.walk(g):
+            is_name = (isinstance(n, ast.Name) and n.id in tset and isinstance(n.ctx, ast.Load)) or \
+                (isinstance(n, ast.Subscript) and isinstance(n.ctx, ast.Load) and ast.unparse(n.value) == 'self.team_names')
+            if not is_name:
+                continue
+            par = parent(n)
+            if isinstance(par, ast.Compare) and all(isinstance(o, (ast.Eq, ast.NotEq, ast.Is, ast.IsNot)) for o in par.ops):
+                continue
+            if isinstance(par, ast.FormattedValue) or (isinstance(par, ast.Assign) and par.value is n) or isinstance(par, ast.Return):
+                continue
+            if isinstance(par, ast.keyword):
+                par2 = parent(par)
+            else:
+                par2 = par
+            # handed to a helper method of the class: the corresponding parameter carries the name there
+            if isinstance(par2, ast.Call) and isinstance(par2.func, ast.Attribute) and isinstance(par2.func.value, ast.Name) and par2.func.value.id in ('self', 'cls'):
+                callee = None
+                for c in repo.mro(ci):
+                    if par2.func.attr in c.methods:
+                        callee = (c, c.methods[par2.func.attr])
+                        break
+                if callee is not None:
+                    c, cf = callee
+                    params = [a.arg for a in (cf.args.args[1:] if c.method_kind(cf.name) in ('method', 'class') else cf.args.args)]
+                    prm = None
+                    if isinstance(par, ast.keyword):
+                        prm = par.arg
+                    elif n in par2.args and par2.args.index(n) < len(params):
+                        prm = params[par2.args.index(n)]
+                    if prm is not None and prm in params + [a.arg for a in cf.args.kwonlyargs]:
+                        work.append((cf, {prm}))
+                        continue
+            bad = bad or (par, n, g)
+        if bad:
+            raise AnalysisError('C20.R1', f'PlayerThread.{bad[2].name}', f'team name `{ast.unparse(bad[1])}` is used in `{ast.unparse(bad[0])[:70]}` (not an ==/!=/None test, an f-string '
+                                                                         f'hole, a plain store or an argument of a helper that uses it so): six representative names do not cover every behaviour')
+    tainted = all_tainted
     chk.ok('C20.R1', repo.where(ci.module, fn), f'team names ({sorted(tainted)}, seat-table entries) reach only ==/!=/None tests, f-string holes and stores')
 
 
@@ -167,7 +202,7 @@ def run(chk):
     # ---- R2 ------------------------------------------------------------------------------------------------------------------
     Sm = Summarizer(repo, 'C20.R2')
     paths = Sm.paths('PlayerThread', '_connect', dyn='PlayerThread')
-    chk.floor('C20.R2', 'paths of _connect', len(paths), 5)
+    chk.floor('C20.R2', 'paths of _connect', len(paths), 2)
     for p in paths:
         sets = [e for e in p.events if e.kind == 'call' and e.method == 'set' and e.recv.endswith('event_thread')]
         if p.end[0] == 'raise':
